@@ -4,7 +4,10 @@ package packet
 // function by name; the bodies below are used only when a counterexample is
 // replayed natively (values come from a tape written by the replay generator).
 
-import "time"
+import (
+	"runtime"
+	"time"
+)
 
 var verifTapeInts []uint64
 var verifTapeBytes [][]byte
@@ -104,8 +107,20 @@ func verifOffset(outer, inner []byte) int {
 }
 func verifTime(ns int64) time.Time       { return time.Unix(0, ns) }
 func verifTimeNS(t time.Time) int64      { return t.UnixNano() }
-func verifAllocMark(on bool)             {}
-func verifNoAllocSince(id string)        {}
+// native allocation monitor (replay only): heap allocations counted by the runtime between mark and check
+var verifMS runtime.MemStats
+var verifMallocs uint64
+
+func verifAllocMark(on bool) {
+	runtime.ReadMemStats(&verifMS)
+	verifMallocs = verifMS.Mallocs
+}
+func verifNoAllocSince(id string) {
+	runtime.ReadMemStats(&verifMS)
+	if verifMS.Mallocs > verifMallocs {
+		verifFailures = append(verifFailures, id)
+	}
+}
 func verifRunGoroutines()                {}
 func verifPendingGoroutines() int        { return 0 }
 func verifDropGoroutines()               {}
